@@ -43,6 +43,16 @@ def main():
         pass
     sys.setrecursionlimit(3000)
     ctx = Ctx(prop, tier, int(seed), int(shard), int(nshards), payload)
+    cov = None
+    if int(shard) == int(nshards) - 1 and mode == "run" and os.environ.get("VERIF_NO_COVERAGE") != "1":
+        # line coverage of the repository's sources as seen from one shard (evidence of reach only)
+        try:
+            import coverage
+            os.environ.setdefault("COVERAGE_CORE", "sysmon")
+            cov = coverage.Coverage(data_file=None, include=[os.path.join(os.environ.get("VERIF_REPO", "/repo"), "fickling", "*")])
+            cov.start()
+        except Exception:
+            cov = None
     mod = importlib.import_module("vp.props." + prop.lower())
     try:
         if mode == "replay":
@@ -51,6 +61,22 @@ def main():
             mod.run_shard(ctx)
     except BaseException:
         ctx.agg.inconclusive.append("child crashed: " + traceback.format_exc()[-1500:])
+    if cov is not None:
+        try:
+            cov.stop()
+            rep = {}
+            repo_f = os.path.join(os.environ.get("VERIF_REPO", "/repo"), "fickling")
+            for fn in sorted(os.listdir(repo_f)):
+                if fn.endswith(".py"):
+                    try:
+                        _, stmts, _, missing, _ = cov.analysis2(os.path.join(repo_f, fn))
+                    except Exception:
+                        continue
+                    if stmts and len(missing) < len(stmts):
+                        rep[fn] = f"{len(stmts) - len(missing)}/{len(stmts)} statements"
+            ctx.agg.notes.append({"line_coverage_of_repo_in_last_shard": rep})
+        except Exception as e:
+            ctx.agg.notes.append({"coverage_error": repr(e)[:100]})
     if monitor.RECORDER_HITS:
         ctx.agg.notes.append({"recorder_hits": monitor.RECORDER_HITS[:5]})
     with open(out, "w") as f:
